@@ -20,6 +20,13 @@ EXTENDS Integers, Sequences, TLC
 AllocBoundKiB(n, d) == (256 * n) \div 1024 + (8 * (n * d)) \div 1024 + 64
 SizeBoundKiB(n) == (64 * n) \div 1024 + 16
 
+\* The known finding (names amplified by compression pointers: a name of n/2 octets followed by n/4 pointers to it
+\* decodes to n^2/8 octets) has bounds of its own, so that anything worse than what is known is still reported:
+\* decoding allocates about twice the decoded names and retains them once; re-encoding hands the original bytes back.
+FanKiB(n) == ((n \div 8) * n) \div 1024                       \* n^2 / 8, in KiB (32-bit arithmetic: divide first)
+FanAllocBoundKiB(n) == (5 * FanKiB(n)) \div 2 + AllocBoundKiB(n, 1)
+FanSizeBoundKiB(n) == (3 * FanKiB(n)) \div 2 + SizeBoundKiB(n)
+
 CONSTANTS N, MinHeader      \* MC: input length, smallest container header
 VARIABLES rem, depth, work
 vars == <<rem, depth, work>>
